@@ -56,6 +56,7 @@ class Contract:
         self.ghost_defs = list(ghost_defs)        # definitions of ghost functions, assumed at entry (conservative)
         self.at_calls = dict(at_calls or {})      # callee name -> [spec text] asserted in the caller's state at each call
         self.ghost_out = dict(ghost_out or {})   # function locals visible to ensures (existential at call sites)
+        self.rely = []                           # two-state predicates assumed across every await point of this coroutine
 
     @property
     def key(self):
